@@ -665,14 +665,63 @@ Definition only_overlapped_or_touched (mapq_threshold : nat) (use_supp duplicate
                  existsb (fun a => (a_name a =? fst r) && usable mapq_threshold use_supp duplicates a && overlaps_or_touches v a) alns)
               variants) (snd r)) out.
 
+(* ---- read groups (whatshap/bam.py: SampleBamReader._initialize_sample_to_group_ids, fetch) ----
+   header: the @RG lines in header order as (read group id, SM sample id if any); rgs: the RG tag of each alignment
+   (None = no RG tag), parallel to the alignment list; sample = None is the --ignore-read-groups call. *)
+Definition rg_header := list (nat * option nat).
+Definition sample_groups (h : rg_header) (s : nat) : list nat :=
+  map fst (filter (fun g : nat * option nat => match snd g with Some s' => s' =? s | None => false end) h).
+Fixpoint select_by_rg {A} (gs : list nat) (rgs : list (option nat)) (alns : list A) : list A :=
+  match rgs, alns with
+  | Some g :: rgs', a :: alns' =>
+      if existsb (Nat.eqb g) gs then a :: select_by_rg gs rgs' alns' else select_by_rg gs rgs' alns'
+  | _ :: rgs', _ :: alns' => select_by_rg gs rgs' alns'
+  | _, _ => []
+  end.
+(* error classes: 1 = SampleNotFoundError (no read group names the sample), 2 = KeyError (an alignment without RG
+   tag is met while a sample is requested); 0 with result None = AssertionError from re-alignment *)
+Definition sample_select (h : rg_header) (sample : option nat) (rgs : list (option nat)) (alns : list alignment)
+  : option (list alignment) * nat :=
+  match sample with
+  | None => (Some alns, 0)
+  | Some s =>
+      match sample_groups h s with
+      | [] => (None, 1)
+      | gs => if existsb (fun r : option nat => match r with None => true | Some _ => false end) rgs
+              then (None, 2) else (Some (select_by_rg gs rgs alns), 0)
+      end
+  end.
+Definition rg_info := (rg_header * option nat * list (option nat))%type.
+Definition impl_out := (option (list (nat * list rvar)) * nat)%type.
+Definition read_set_sample (R : rules) (reference : option (list Z)) (threshold : Z) (rg : rg_info)
+           (variants : list variant) (alns : list alignment) : impl_out :=
+  let '(h, sample, rgs) := rg in
+  match sample_select h sample rgs alns with
+  | (Some l, _) => (read_set_default R reference threshold variants l, 0)
+  | (None, e) => (None, e)
+  end.
+(* the alignments that belong to the requested sample (specification side: every read group whose SM is the sample) *)
+Definition of_sample (rg : rg_info) (alns : list alignment) : list alignment :=
+  let '(h, sample, rgs) := rg in
+  match sample with None => alns | Some s => select_by_rg (sample_groups h s) rgs alns end.
+(* inputs the reader rejects by design: unknown sample, or an alignment without RG tag while a sample is requested *)
+Definition malformed (rg : rg_info) : bool :=
+  let '(h, sample, rgs) := rg in
+  match sample with
+  | None => false
+  | Some s => match sample_groups h s with [] => true | _ => false end
+              || existsb (fun r : option nat => match r with None => true | Some _ => false end) rgs
+  end.
+
 (* One correspondence case.  truth / must: variants whose re-alignment window is free of other differences
    (reference mode) resp. all fully covered variants (reference-free mode); truth_skip / must_skip: the window
-   is clean except that it reaches a reference skip; must_pair: like must, but also for the mate on the other strand *)
-Definition case_t := ((option (list Z) * Z) * list variant * list alignment
+   is clean except that it reaches a reference skip; must_pair: like must, but also for the mate on the other strand.
+   All of them refer to the alignments of the requested sample only. *)
+Definition case_t := ((option (list Z) * Z * rg_info) * list variant * list alignment
                       * (truth_t * truth_t) * (must_t * must_t * must_t)
-                      * option (list (nat * list rvar)))%type.
+                      * impl_out)%type.
 
-Definition c_out (c : case_t) := snd c.
+Definition c_out (c : case_t) := fst (snd c).
 Definition with_out (c : case_t) (f : list (nat * list rvar) -> bool) : bool :=
   match c_out c with Some o => f o | None => true end.
 
@@ -680,10 +729,13 @@ Definition l1_no_wrong (c : case_t) : bool :=
   let '(_, _, _, (truth, _), _, _) := c in with_out c (no_wrong_allele truth).
 Definition l1_no_wrong_skip (c : case_t) : bool :=
   let '(_, _, _, (_, truth_skip), _, _) := c in with_out c (no_wrong_allele truth_skip).
+(* only overlapped variants, and only on reads of the requested sample *)
 Definition l1_overlap (c : case_t) : bool :=
-  let '(_, variants, alns, _, _, _) := c in with_out c (only_overlapped 20 false false variants alns).
+  let '((_, _, rg), variants, alns, _, _, _) := c in
+  with_out c (only_overlapped 20 false false variants (of_sample rg alns)).
 Definition l1_overlap_touch (c : case_t) : bool :=
-  let '(_, variants, alns, _, _, _) := c in with_out c (only_overlapped_or_touched 20 false false variants alns).
+  let '((_, _, rg), variants, alns, _, _, _) := c in
+  with_out c (only_overlapped_or_touched 20 false false variants (of_sample rg alns)).
 Definition l1_missing (c : case_t) : bool :=
   let '(_, _, _, _, (must, _, _), _) := c in with_out c (none_missing must).
 Definition l1_missing_skip (c : case_t) : bool :=
@@ -691,10 +743,13 @@ Definition l1_missing_skip (c : case_t) : bool :=
 Definition l1_missing_pair (c : case_t) : bool :=
   let '(_, _, _, _, (_, _, must_pair), _) := c in with_out c (none_missing must_pair).
 Definition l1_no_crash (c : case_t) : bool :=
-  match c_out c with Some _ => true | None => false end.
+  let '((_, _, rg), _, _, _, _, _) := c in
+  malformed rg || match c_out c with Some _ => true | None => false end.
 Definition l2_model_with (R : rules) (c : case_t) : bool :=
-  let '((reference, threshold), variants, alns, _, _, out) := c in
-  match out, read_set_default R reference threshold variants alns with
+  let '((reference, threshold, rg), variants, alns, _, _, (out, err)) := c in
+  let '(m, merr) := read_set_sample R reference threshold rg variants alns in
+  (err =? merr) &&
+  match out, m with
   | Some o, Some m => out_eqb o m
   | None, None => true
   | _, _ => false
@@ -704,8 +759,8 @@ Definition clauses_ok (c : case_t) : bool :=
   l1_no_crash c && l1_no_wrong c && l1_no_wrong_skip c && l1_overlap c && l1_missing c && l1_missing_skip c
   && l1_missing_pair c.
 Definition with_model (R : rules) (c : case_t) : case_t :=
-  let '((reference, threshold), variants, alns, tr, mu, _) := c in
-  ((reference, threshold), variants, alns, tr, mu, read_set_default R reference threshold variants alns).
+  let '((reference, threshold, rg), variants, alns, tr, mu, _) := c in
+  ((reference, threshold, rg), variants, alns, tr, mu, read_set_sample R reference threshold rg variants alns).
 (* the same input under the repaired rules satisfies every L1 clause (evaluated on the model's output) *)
 Definition repaired_ok (c : case_t) : bool := clauses_ok (with_model repaired_rules c).
 (* attribution of a failing case to the defective rules: rule k is needed iff repairing all others is not enough *)
